@@ -2,20 +2,25 @@ From Coq Require Import String List Bool Arith.
 From Verif Require Import Base.Str Base.Run C06.Model C06.Spec.
 Import ListNotations.
 
-(* a case: the delivery (binding the caller names, Response/@Destination, which assertions arrive encrypted,
-   abstract Response and receiver state) and the verdict observed on the real
+(* a case: the set-up of the receiver (how the option allow_unsolicited is written, how the configuration object was
+   made), the delivery (binding the caller names, Response/@Destination, which assertions arrive encrypted, abstract
+   Response and outstanding set; its allow_unsolicited field is a placeholder: the model puts there what the code
+   makes of the option, the spec what the option says) and the verdict observed on the real
    Saml2Client.parse_authn_request_response *)
-Definition case := (delivery * verdict)%type.
+Definition case := (setup * delivery * verdict)%type.
 
-Definition mk (b : binding) (d : destination) (fl : list bool) (allow : bool) (out : list (string * string))
+Definition mk (b : binding) (d : destination) (fl : list bool) (s : setup) (out : list (string * string))
   (irt : option string) (version : nat * nat) (top : string) (second : option string)
   (assertions : list assertion_in) (obs : verdict) : case :=
-  ({| via := b; dest := d; sealed := fl;
-      resp := {| allow_unsolicited := allow; outstanding := out; irt := irt; version := version; status_top := top;
-                 status_second := second; assertions := assertions |} |}, obs).
+  (s, {| via := b; dest := d; sealed := fl;
+         resp := {| allow_unsolicited := false; outstanding := out; irt := irt; version := version; status_top := top;
+                    status_second := second; assertions := assertions |} |}, obs).
 
-Definition agrees (c : case) : bool := verdict_eqb (receive (fst c)) (snd c).
-Definition holds (c : case) : bool := spec_d_b (fst c) (snd c).
+Definition c_setup (c : case) : setup := fst (fst c).
+Definition c_delivery (c : case) : delivery := snd (fst c).
+
+Definition agrees (c : case) : bool := verdict_eqb (receive_cfg (c_setup c) (c_delivery c)) (snd c).
+Definition holds (c : case) : bool := spec_c_b (c_setup c) (c_delivery c) (snd c).
 
 (* an assertion that arrives encrypted has a confirmation whose data does not answer the request the Response answers *)
 Definition sealed_stray (y : delivery) : bool :=
@@ -26,17 +31,26 @@ Definition sealed_stray (y : delivery) : bool :=
   end.
 
 (* classes (looked at only when [holds] is false, and only when it is the correlation clause that fails):
+   4 = C06-F4 (fixed by 6bdc97cd): the option is a string that says no in another spelling than "false";
    3 = C06-F3 (fixed by e76039c1): encrypted assertion, some confirmations answer the request, some do not;
    2 = C06-F2 (fixed by b84752ad): encrypted assertion with a stray confirmation, none of the above *)
 Definition cls (c : case) : nat :=
-  let y := fst c in
-  if negb (browser (via y)) || correlated_b (resp y) (snd c) then 0
-  else if partial_match y then 3
-  else if sealed_stray y then 2 else 0.
+  match meaning (opt (c_setup c)) with
+  | None => 0
+  | Some b =>
+      let y := configure b (c_delivery c) in
+      if negb (browser (via y)) || correlated_b (resp y) (snd c) then 0
+      else if misread (opt (c_setup c)) then 4
+      else if partial_match y then 3
+      else if sealed_stray y then 2 else 0
+  end.
 
 Definition run := run_cases agrees holds cls.
 Definition explain (c : case) :=
-  let x := resp (fst c) in
-  (receive (fst c), receive_v1 (fst c), receive_v0 (fst c), (browser (via (fst c)), well_addressed (fst c), partial_match (fst c), cls c),
+  let s := c_setup c in
+  let y := configure (match meaning (opt s) with Some b => b | None => false end) (c_delivery c) in
+  let x := resp y in
+  (receive_cfg s (c_delivery c), receive_cfg_v0 s (c_delivery c), (meaning (opt s), effective_allow (opt s), misread (opt s)),
+   (browser (via y), well_addressed y, partial_match y, cls c),
    (correlated_b x (snd c), status_respected_b x (snd c), shape_respected_b x (snd c),
     accepted_when_fine_b x (snd c), status_raised_when_fine_b x (snd c))).
